@@ -157,6 +157,21 @@ def refs_of(backend, out):
     return {s for s in syms if not RUNTIME.match(s)}
 
 
+QUALIFIED = """#[diplomat::bridge]
+mod plain {
+    #[diplomat::opaque]
+    pub struct Foo(pub u8);
+    impl Foo { pub fn get(&self) -> u8 { self.0 } }
+}
+#[::diplomat::bridge]
+mod qualified {
+    #[diplomat::opaque]
+    pub struct Bar(pub u8);
+    impl Bar { pub fn get(&self) -> u8 { self.0 } }
+}
+"""
+
+
 def check(ctx, replay=None):
     build_harness()
     tablegen.main()
@@ -244,6 +259,21 @@ def check(ctx, replay=None):
                           "... : the set of symbols " + ("exported by the macro-built library" if meta[f][0] == "exported" else f"referenced by the {meta[f][0]} bindings") +
                           " is not the set Rename/Model.v derives (naming scheme Type_method / Type_destroy after abi_rename inheritance; enabled methods and destructors)"},
                           meta[f][0] != "exported" or True)
+    # the bridge attribute written with a leading `::` (a fully qualified path, as generated code and some style guides write it): the
+    # macro exports the module's functions, so the tool has to see the module too
+    dd, lib, p = e2e.bridge_crate("c06q", QUALIFIED)
+    if lib is not None:
+        pm = sh(["nm", "-g", "--defined-only", "-A", lib], timeout=120)
+        own = {mm.group(1) for mm in (re.match(r".*:c06q-[0-9a-f]+\.[\w\.\-]*o:\S+ T (\w+)$", l.strip()) for l in pm.stdout.split("\n")) if mm}
+        own = {x for x in own if not RUNTIME.match(x) and not x.startswith("_")}
+        o = os.path.join(dd, "out_c")
+        q = e2e.run_tool("c", os.path.join(dd, "src", "lib.rs"), o)
+        if q.returncode == 0:
+            refs = refs_of("c", o)
+            nsyms += len(own)
+            if own - refs:
+                ctx.violation("direct:bridge-attribute-spelling", {"lib_rs": QUALIFIED, "exported_not_declared": sorted(own - refs), "what": "the macro exports the functions of a module "
+                              "annotated `#[::diplomat::bridge]`, diplomat-tool does not recognise the module as a bridge and declares none of them"}, True)
     return batch_evidence(
         ctx, PROP, phase, goals, fails, len(goals), max(nsyms, 2),
         "%d generated bridges (1-3 bridge modules, opaque/struct/enum types, 0-2 impl blocks each, abi_rename patterns with and without {0} "
